@@ -46,7 +46,11 @@ pub struct ConvCase {
     pub ops: Vec<COp>,
 }
 
-pub const FORMS: [&str; 10] = ["Vec", "VecDeque", "LinkedList", "&[..]", "&mut [..]", "collect()", "collect() with size_hint 0", "array", "from_iter(VecDeque)", "HashMap (std) / Vec"];
+pub const FORMS: [&str; 14] = ["Vec", "VecDeque", "LinkedList", "&[..]", "&mut [..]", "collect()", "collect() with size_hint 0", "array", "from_iter(VecDeque)", "HashMap (std) / Vec", "BTreeSet<(K, V)>", "BinaryHeap<(K, V)>", "BTreeMap", "HashSet<(K, V)> (std) / BTreeSet"];
+/// conversions whose source has no order of its own (hash order)
+pub fn unordered_form(form: u8) -> bool {
+    matches!(form % FORMS.len() as u8, 9 | 13)
+}
 const INIT: u32 = 64;
 
 #[derive(Clone, Copy, PartialEq, Eq, Debug)]
@@ -116,6 +120,20 @@ fn build(form: u8, items: Vec<(TKey, TVal)>) -> C {
             arr!(1, 2, 3, 4, 5)
         }
         8 => <C as core::iter::FromIterator<(TKey, TVal)>>::from_iter(items.into_iter().collect::<VecDeque<_>>()),
+        // sets of pairs may hold one key with several values
+        10 => RawLRU::from(items.into_iter().collect::<std::collections::BTreeSet<(TKey, TVal)>>()),
+        11 => RawLRU::from(items.into_iter().collect::<std::collections::BinaryHeap<(TKey, TVal)>>()),
+        12 => RawLRU::from(items.into_iter().collect::<std::collections::BTreeMap<TKey, TVal>>()),
+        13 => {
+            #[cfg(feature = "std")]
+            {
+                RawLRU::from(items.into_iter().collect::<std::collections::HashSet<(TKey, TVal)>>())
+            }
+            #[cfg(not(feature = "std"))]
+            {
+                RawLRU::from(items.into_iter().collect::<std::collections::BTreeSet<(TKey, TVal)>>())
+            }
+        }
         _ => {
             #[cfg(feature = "std")]
             {
@@ -459,7 +477,7 @@ pub fn run_conv_det(case: &ConvCase) -> CaseReport {
     let mut rep = CaseReport::default();
     rep.steps = case.ops.len();
     let form = case.form % FORMS.len() as u8;
-    if form == 9 {
+    if unordered_form(form) {
         return rep;
     }
     let mk = || -> Vec<(TKey, TVal)> { case.items.iter().enumerate().map(|(j, k)| (TKey::new(*k), TVal::new(INIT + j as u32))).collect() };
